@@ -283,7 +283,8 @@ def notes : Val → Option (List Note)
   | .nil => some []
   | _ => Option.none
 def entry : Val → Option MEntry
-  | .list [v, ns] => do let q ← ratOf v; let l ← notes ns; pure ⟨q, l⟩
+  | .list [v, ns] => do let q ← ratOf v; let l ← notes ns; pure ⟨q, l, Option.none⟩
+  | .list [v, ns, .int b] => do let q ← ratOf v; let l ← notes ns; pure ⟨q, l, some b⟩
   | _ => Option.none
 def bar : Val → Option MBar
   | .list [.str k, .int c, .int u, .list es] => do let l ← es.mapM entry; pure ⟨k, c, u, l⟩
